@@ -127,7 +127,8 @@ def check(case):
                 kw_state = {}
             else:
                 st = dict(zip(names, (case["state"] + [1.5])[: len(names)], strict=True))
-                kw_state = {"variables": st}
+                # a mapping by name: its key order is free (reversed for the non-normalised half of the cases)
+                kw_state = {"variables": st if norm else dict(reversed(list(st.items())))}
             x, y = st["x"], st["y"]
             kb = 0.75
             rates = {"v0": c, "v1": k1 * x**n1, "v2": k2 * y**n2}
@@ -150,6 +151,8 @@ def check(case):
                             return outcome(False, "wrong-elasticity", symptom="wrong-variable-elasticity", detail=f"d{r}/d{v}: {g} expected {e} | {txt}")
             else:
                 to_scan = ["c", "k1", "k2"] + (["kb"] if case["net"] == "branch" else [])
+                if not norm:
+                    to_scan = to_scan[::-1]
                 got = mca.parameter_elasticities(m, to_scan=to_scan, normalized=norm, **kw_state)
                 pv = {"c": c, "k1": k1, "k2": k2, "kb": kb}
                 exp = {"v0": {"c": 1.0}, "v1": {"k1": x**n1}, "v2": {"k2": y**n2}}
